@@ -198,6 +198,8 @@ class Interp:
             return [self.ev(e) for e in n.elts]
         if isinstance(n, ast.Dict) and not n.keys:
             return {}
+        if isinstance(n, ast.Dict) and all(isinstance(k, ast.Constant) and isinstance(k.value, str) for k in n.keys):
+            return {k.value: self.ev(v) for k, v in zip(n.keys, n.values)}
         if isinstance(n, ast.Call):
             f = dotted(n.func) or ""
             if f == "isinstance" and len(n.args) == 2:
@@ -571,6 +573,22 @@ def check_classsel(ctx: Ctx):
                 early.append(r)
     ctx.decide(not early, "CLASSSEL", rf.qualname + ":all-paths", (rf, early[0]) if early else rf, "every return of refine_droplet is preceded by the promotion to DiffuseDroplet",
                f"`{U(early[0])[:60] if early else ''}` returns before the candidate is promoted: with refinement on, such a droplet stays a SphericalDroplet and the results of one call no longer share one class")
+    # … and returns the promoted object: a name that was bound to the candidate *before* the promotion (`candidate = droplet` kept "in case
+    # the fit fails") still refers to the unpromoted SphericalDroplet
+    if len(prom) == 1:
+        dparam = rf.params[1] if len(rf.params) > 1 else "droplet"
+        stale = []
+        for rn in rfv.return_nodes():
+            r = rn.stmt
+            if r.value is None or not isinstance(r.value, ast.Name) or r.value.id == dparam:
+                continue
+            for d_ in rfv.defs_reaching(r.value.id, r):
+                v_ = rfv.value_of_def(d_, r.value.id) if d_.stmt is not None else None
+                if isinstance(v_, ast.Name) and v_.id == dparam and d_.stmt is not None and not rfv.dominates(prom[0], d_.stmt):
+                    stale.append(r)
+        ctx.decide(not stale, "CLASSSEL", rf.qualname + ":returns-promoted", (rf, stale[0]) if stale else rf, "every return hands out the promoted droplet",
+                   f"`{U(stale[0])[:50] if stale else ''}` returns a name bound to the candidate before its promotion: on that path (e.g. a fit that did not converge) a SphericalDroplet is returned "
+                   "although refinement is on, and the droplets of one result no longer share one class and layout")
     # promotion shape
     okp = len(prom) == 1 and U(prom[0].test) == "not isinstance(droplet, DiffuseDroplet)"
     ctx.decide(okp, "CLASSSEL", rf.qualname + ":promotion", (rf, prom[0]) if prom else rf, "refinement promotes exactly the non-diffuse candidates", "refine_droplet does not promote exactly the non-DiffuseDroplet candidates")
@@ -622,6 +640,9 @@ def check(ctx: Ctx):
     from ..rules import purity as _pur
 
     _pur.check_mutable_defaults(ctx, ("droplets.image_analysis", "droplets.emulsions", "droplets.droplets", "droplets.droplet_tracks", "droplets.trackers"))
+    from ..rules import support as _sup_r12
+
+    _sup_r12.check_flag_tests(ctx, ("droplets.image_analysis.locate_droplets", "droplets.image_analysis.refine_droplet"))
     ctx.expect("MUTDEFAULT", 5)
     ctx.expect("STATELESS", 1)
     check_locators(ctx)
